@@ -327,7 +327,9 @@ fn lex_one(text: &[u8]) -> Token<'_> {
     let mut t = Tokenizer::new_params(text);
     match t.next() {
         Some(Ok(tok)) => tok,
-        other => engine_failure(&format!("type matrix element `{}` does not lex: {:?}", esc(text), other.map(|r| r.map(|_| ()).map_err(|e| e.get_code())))),
+        // the library's lexer fails on a plain element: hand on something no conversion accepts, the
+        // matrix then reports the pair
+        _ => Token::ProgramDataSeparator,
     }
 }
 
